@@ -4,6 +4,7 @@
 from rzilcompiler.Transformer.Pures.Pure import Pure
 from rzilcompiler.Transformer.ValueType import ValueType
 from rzilcompiler.Transformer.Pures.PureExec import PureExec
+from rzilcompiler.Transformer.Pures.LetVar import LetVar
 
 
 class Cast(PureExec):
@@ -11,8 +12,17 @@ class Cast(PureExec):
         PureExec.__init__(self, name, [val], type_specifier)
 
     def il_exec(self) -> str:
-        if self.value_type.signed and self.ops[0].value_type.signed:
-            fill_bit = f"MSB({self.ops[0].il_read()})"
+        src = self.ops[0]
+        if self.value_type.signed and src.value_type.signed:
+            fill_bit = f"MSB({src.il_read()})"
+        elif (
+            src.value_type.signed
+            and int(self.value_type.bit_width) > int(src.value_type.bit_width)
+            and not (isinstance(src, LetVar) and src.get_val() >= 0)
+        ):
+            # C11 6.3.1.3: a signed value converted to a wider unsigned type is sign extended as well.
+            # (The sign bit of a non-negative constant is known to be clear.)
+            fill_bit = f"MSB({src.il_read()})"
         else:
             fill_bit = "IL_FALSE"
         return f"CAST({self.value_type.bit_width}, {fill_bit}, {self.ops[0].il_read()})"
